@@ -292,7 +292,9 @@ func monC02(o *TypeOps, c Config, r *Rep) {
 		}
 		heldCurried(o.T, pl.vals, r, func(w reflect.Value) func(reflect.Value) (int, int) {
 			f := o.EqualCurried(w.Interface())
-			return func(b reflect.Value) (int, int) { return b2i(f(b.Interface())), b2i(o.Equal(w.Interface(), b.Interface())) }
+			return func(b reflect.Value) (int, int) {
+				return b2i(f(b.Interface())), b2i(o.Equal(w.Interface(), b.Interface()))
+			}
 		})
 	}
 }
